@@ -15,6 +15,13 @@
 (*   "latency"  latency 0..3 x radio flags x losses x notify + cancelation x latency configuration *)
 (*   "instant"  update / channel map / PHY indications with instants at signed distance -DMinNeg..DMax*)
 (*              from the event of reception x latency x losses x traffic while pending x cancel    *)
+(*   "latbound" latency VALUE boundaries (Lats, e.g. 0,1,2,36,37,38,74,255,256,481,482,483,498,499; *)
+(*              interval / supervision timeout chosen valid for the latency) x pull back of the     *)
+(*              planned event by almost everything / half / one event (notify + cancelation,        *)
+(*              disarmable or not) x channel index of the planned event (event index mod 37 in      *)
+(*              0,1,17,18,35,36; `seek`) x hop x channel map x latency configuration                *)
+(*   "latwrap"  the same pull backs for a planned event at / after the wrap of the 16 bit event     *)
+(*              counter (planned index 65536*j + 0 | latency/2 | latency, pulled back across it)    *)
 EXTENDS Integers, Sequences, FiniteSets, TLC, Json
 
 CONSTANTS Family, D,
@@ -22,7 +29,9 @@ CONSTANTS Family, D,
           DMinNeg, DMax, \* instant distances -DMinNeg..DMax ("instant"; TLC cfg files have no negative literals)
           Wraps,        \* fast-forward amounts used to reach the wrap of the 16 bit event counter ("instant")
           Small,        \* TRUE: reduced parameter sets (quick tier)
-          NCfg          \* number of run-time switchable latency configurations of the variant (1 if none)
+          NCfg,         \* number of run-time switchable latency configurations of the variant (1 if none)
+          Rots          \* rotation indices ("latbound" with Small: which hop / map / timeout / configuration is paired
+                        \* with which latency; "latwrap": which wrap position is paired with which pull back distance)
 
 VARIABLES hist, stage, n
 
@@ -136,6 +145,59 @@ LatencyNext ==
        /\ stage' = "done" /\ n' = n
 
 -----------------------------------------------------------------------------
+(* "latbound" / "latwrap": boundaries of the peripheral latency VALUE.                              *)
+(* Interval and supervision timeout are valid for the latency (Core Vol 6 Part B 4.5.2: timeout >   *)
+(* (1 + latency) * interval * 2 and <= 32 s): 7.5 ms for the large latencies.                       *)
+IntFor(lat)  == IF lat > 200 THEN 6 ELSE IF lat > 40 THEN 12 ELSE 24
+ToMin(lat)   == Max(10, ((1 + lat) * IntFor(lat)) \div 4 + 1)           \* the smallest valid timeout
+ToFor(lat, mode) == IF mode = 0 THEN 3200 ELSE ToMin(lat)
+HopSeq   == <<5, 9, 16>>
+MapSeq   == <<FullMap, SparseMap>>
+Residues == <<0, 1, 17, 18, 35, 36>>        \* channel index (event index mod 37) of the planned event: small, middle, large
+\* the planned event (anchor + latency + 1 intervals) is pulled back to anchor + k intervals:
+\* i = 1 by almost everything (k = 1), 2 by half, 3 by one event (k = latency)
+PullK(lat, i) == IF i = 1 THEN 1 ELSE IF i = 2 THEN Max(1, (lat + 1) \div 2) ELSE Max(1, lat)
+\* new data becomes pending in the middle of the k-th interval after the anchor; then the cancelation is serviced
+Pull(lat, i, disarmable) ==
+    << <<"notify", 2 * PullK(lat, i) - 1, 2 * (lat + 1)>>, IF disarmable THEN <<"cancel">> ELSE <<"cancel", 0, 0>> >>
+
+RECURSIVE Cat(_, _)
+Cat(f, k) == IF k = 0 THEN <<>> ELSE Cat(f, k - 1) \o f[k]
+
+\* the central's event b with (b + lat + 1) % 37 = r is the last one before the latency applies: the planned event has channel index r
+GridRound(lat, r, i, disarmable) ==
+    << <<"seek", 0, 37, (r + 37 * 14 - lat - 1) % 37, 32>>, Step(0, 0, 1) >> \o Pull(lat, i, disarmable) \o << Step(0, 0, 1) >>
+
+GridRounds(lat) ==
+    Cat([j \in 1..19 |-> IF j = 19 THEN GridRound(lat, 0, 1, FALSE)
+                         ELSE GridRound(lat, Residues[((j - 1) % 6) + 1], ((((j - 1) % 6) + ((j - 1) \div 6)) % 3) + 1, TRUE)], 19)
+
+\* j-th wrap: the planned event has index 65536 * j + x, x = 0 | lat / 2 | lat; it is pulled back (across the wrap)
+WrapX(lat, i) == IF i = 1 THEN 0 ELSE IF i = 2 THEN lat \div 2 ELSE lat
+WrapRound(lat, j, rot) ==
+    LET x == WrapX(lat, ((j - 1 + rot) % 3) + 1)
+        i == (((j - 1) + (rot \div 3)) % 3) + 1
+    IN  << <<"seek", 65536 * j - 3 * (lat + 1) - 80, 1, 0, 0>>,
+           <<"seek", 65536 * j + x - lat - 1, 1, 0, 32>>, Step(0, 0, 1) >> \o Pull(lat, i, TRUE) \o << Step(0, 0, 1) >>
+WrapRounds(lat, rot) == Cat([j \in 1..3 |-> WrapRound(lat, j, rot)], IF lat < 36 THEN 1 ELSE 3)
+
+LatSetup(lat, hop, mp, tm, c) ==
+    (IF NCfg > 1 THEN <<<<"latcfg", c>>>> ELSE <<>>)
+    \o << Conn(1, 0, IntFor(lat), lat, ToFor(lat, tm), mp, hop, 5, 0), Step(0, 32, 1), <<"q", "cccd", 1>>, Step(0, 32, 1), Step(0, 32, 1), Step(0, 32, 1) >>
+
+LatBoundNext ==
+    /\ stage = "init"
+    /\ \E lat \in Lats, rot \in Rots :
+       \E hop \in (IF Small THEN {HopSeq[((lat + rot) % 3) + 1]} ELSE {5, 9, 16}),
+          mp  \in (IF Small THEN {FullMap} ELSE {FullMap, SparseMap}),
+          tm  \in (IF Small THEN {(lat + rot) % 2} ELSE {0, 1}),
+          c   \in (IF NCfg = 1 THEN {0} ELSE IF Small THEN {IF (lat + rot) % 2 = 0 THEN NCfg - 1 ELSE 1} ELSE 0..(NCfg - 1)) :
+            DoAll(LatSetup(lat, hop, mp, tm, c)
+                  \o (IF Family = "latwrap" THEN WrapRounds(lat, rot) ELSE GridRounds(lat))
+                  \o << Step(0, 0, 1), Step(0, 0, 1) >>)
+    /\ stage' = "done" /\ n' = n
+
+-----------------------------------------------------------------------------
 (* "instant": the three instant procedures at every signed distance *)
 IndSet(d) == { <<"q", "upd", d, 3, 5, 40, 1, 200, 1250>>,
                <<"q", "upd", d, 2, 0, 12, 0, 50, 0>>,
@@ -174,6 +236,7 @@ GNext ==
     \/ Family = "update"  /\ UpdateNext
     \/ Family = "latency" /\ LatencyNext
     \/ Family = "instant" /\ InstantNext
+    \/ Family \in {"latbound", "latwrap"} /\ LatBoundNext
 
 GSpec == GInit /\ [][GNext]_gvars
 
